@@ -71,6 +71,13 @@ CHECKS["C17"] = dict(
     note="Trusted: VHDL-subset semantics, layout rule of the statement, z3. Total width <= 8 bits per type; emitted-logic side only (the Python-constant side runs the same std functions over the primitives C09 decides).",
     technique="bounded symbolic translation validation (z3) of serialisation cells against the documented layout",
 )
+CHECKS["C16"] = dict(
+    category="model_checking",
+    text="Wrapper designs for std.wait_for / Waiter.wait_for (constant 1..5(7) and run-time Unsigned[3] durations, allow_zero), std.delayed (0..4 stages, with/without initial value, conditionally executed), continuous_counter (constant and run-time limit), ToggleSignal (durations incl. 0, default_state, first_state, run-time reset) and debounce (periods 2..5) are unrolled from power-up for K >= 2*period+4 clocks with start/reset/enable/data/duration inputs symbolic at every clock; z3 proves the outputs equal a small reference machine at every clock; emitted VHDL assertions are proof obligations; counterexamples are replayed concretely.",
+    design_ref="DESIGN.md 3/C16, 2.6",
+    note="Bounded claim (depth K). Trusted: event-driven VHDL-subset semantics, reference machines (ToggleSignal / debounce follow the upstream ghdl-validated mocks), z3. Not covered: Duration (float) arguments / Duration.count_periods rounding, ClockDivider.",
+    technique="bounded model checking (z3) of interpreted emitted VHDL against reference machines",
+)
 NA = {}
 manifest = {
     "version": 1,
